@@ -1,0 +1,140 @@
+//! Verification hooks (feature `specs_verif`, off by default).
+//!
+//! Add-only: thin forwards to the crate-private `Allocator` operations,
+//! read-only views of its state, and constructors that build an allocator or an
+//! entity handle from explicit parts so that a checker can start from an
+//! arbitrary state. Nothing here is compiled unless the feature is enabled.
+
+use std::num::NonZeroI32;
+
+use super::{Allocator, EntitiesRes, Entity, Generation, Index, ZeroableGeneration};
+use crate::error::WrongGeneration;
+
+/// The allocator's state for one index, as passed to `verif_from_parts`.
+#[derive(Clone, Copy, Debug)]
+pub struct VerifSlot {
+    /// The index described.
+    pub id: Index,
+    /// Raw generation (`0` = never used, `> 0` alive, `< 0` dead).
+    pub gen: i32,
+    /// Member of the `alive` set.
+    pub alive: bool,
+    /// Member of the `raised` set (created atomically, not merged).
+    pub raised: bool,
+    /// Member of the `killed` set (deletion requested atomically, not merged).
+    pub killed: bool,
+}
+
+impl Entity {
+    /// Builds a handle from raw parts.
+    ///
+    /// # Panics
+    ///
+    /// Panics if `gen` is zero.
+    pub fn verif_new(index: Index, gen: i32) -> Entity {
+        let gen = NonZeroI32::new(gen).expect("generation must be non-zero");
+        Entity(index, Generation(gen))
+    }
+}
+
+impl EntitiesRes {
+    /// Forward to `Allocator::allocate` (what `World::create_entity` uses).
+    pub fn verif_allocate(&mut self) -> Entity {
+        self.alloc.allocate()
+    }
+
+    /// Forward to `Allocator::kill` (what `World::delete_entities` uses).
+    pub fn verif_kill(&mut self, delete: &[Entity]) -> Result<(), (WrongGeneration, usize)> {
+        self.alloc.kill(delete)
+    }
+
+    /// Forward to `Allocator::merge` (what `World::maintain` uses).
+    pub fn verif_merge(&mut self) -> Vec<Entity> {
+        self.alloc.merge()
+    }
+
+    /// Forward to `Allocator::generation` compared as in `World::is_alive`.
+    pub fn verif_world_is_alive(&self, e: Entity) -> bool {
+        self.alloc.generation(e.id()) == Some(e.gen())
+    }
+
+    /// Raw generation stored for `id`; `None` beyond the generations vector.
+    pub fn verif_gen(&self, id: Index) -> Option<i32> {
+        self.alloc.generations.get(id as usize).map(|g| g.id())
+    }
+
+    /// Length of the generations vector.
+    pub fn verif_gen_len(&self) -> usize {
+        self.alloc.generations.len()
+    }
+
+    /// Membership of `id` in the `alive` set.
+    pub fn verif_alive(&self, id: Index) -> bool {
+        self.alloc.alive.contains(id)
+    }
+
+    /// Membership of `id` in the `raised` set.
+    pub fn verif_raised(&self, id: Index) -> bool {
+        self.alloc.raised.contains(id)
+    }
+
+    /// Membership of `id` in the `killed` set.
+    pub fn verif_killed(&self, id: Index) -> bool {
+        self.alloc.killed.contains(id)
+    }
+
+    /// The free list's backing vector (may be longer than its atomic length).
+    pub fn verif_cache(&self) -> &[Index] {
+        &self.alloc.cache.cache
+    }
+
+    /// The free list's atomic length.
+    pub fn verif_cache_len(&self) -> usize {
+        self.alloc.cache.len.load(std::sync::atomic::Ordering::Relaxed)
+    }
+
+    /// The next never-used index.
+    pub fn verif_max_id(&self) -> usize {
+        self.alloc.max_id.load(std::sync::atomic::Ordering::Relaxed)
+    }
+
+    /// Builds an allocator from explicit parts.
+    ///
+    /// The generations vector is allocated with `gen_cap` entries and then
+    /// truncated to `gen_len`; the free list's vector is `cache` truncated to
+    /// `cache_vec_len` (so a checker can keep allocation sizes fixed while the
+    /// lengths vary). Slots with `id >= gen_len` get no generation entry.
+    pub fn verif_from_parts(
+        gen_cap: usize,
+        gen_len: usize,
+        slots: &[VerifSlot],
+        cache: &[Index],
+        cache_vec_len: usize,
+        cache_len: usize,
+        max_id: usize,
+    ) -> EntitiesRes {
+        let mut alloc = Allocator::default();
+        alloc.generations = vec![ZeroableGeneration(None); gen_cap];
+        for s in slots {
+            if (s.id as usize) < gen_cap {
+                alloc.generations[s.id as usize] =
+                    ZeroableGeneration(NonZeroI32::new(s.gen).map(Generation));
+            }
+            if s.alive {
+                alloc.alive.add(s.id);
+            }
+            if s.raised {
+                alloc.raised.add(s.id);
+            }
+            if s.killed {
+                alloc.killed.add(s.id);
+            }
+        }
+        alloc.generations.truncate(gen_len);
+        alloc.cache.cache = cache.to_vec();
+        alloc.cache.cache.truncate(cache_vec_len);
+        *alloc.cache.len.get_mut() = cache_len;
+        *alloc.max_id.get_mut() = max_id;
+        EntitiesRes { alloc }
+    }
+}
